@@ -72,13 +72,51 @@ def run(ctx):
         inside.sort(key=lambda n: (unfrac(n[0]), n[1]))
         after = [[frac(tb + 1), col, "1", 0, None]]
         groups = [[x] for x in seq] + [[["n", n]] for n in inside] + [[["n", n]] for n in after]
+        if rng.random() < .35:
+            # a joined hold/roll lying inside the joined hold on its own column (or on a neighbouring column)
+            ib = hb + Fraction(1, 2); ie = ib + Fraction(1, 2)
+            icol = rng.choice([col, col, (col + 1) % 3])
+            nested = ["t", [frac(ib), icol, rng.choice("24"), 0, None], frac(ie)]
+            if ie < tb and not any(unfrac(n[0]) in (ib, ie) and n[1] == icol for n in inside):
+                items = sorted([["n", n] for n in inside] + [nested], key=lambda g: (unfrac(g[1][0]), g[1][1]))
+                groups = [[x] for x in seq] + [[g] for g in items] + [[["n", n]] for n in after]
+                hmeta_nested = (icol == col)
+                pol = rng.choice(c09.POLICIES)
+                hmeta.append((groups, pol, col, inside, head, tb, nested))
+                hreqs.append({"op": "group.ungroup", "groups": groups, "policy": pol})
+                continue
         pol = rng.choice(c09.POLICIES)
-        hmeta.append((groups, pol, col, inside, head, tb))
+        hmeta.append((groups, pol, col, inside, head, tb, None))
         hreqs.append({"op": "group.ungroup", "groups": groups, "policy": pol})
     hresp = ctx.lean.eval_sharded(hreqs)
-    for (groups, pol, col, inside, head, tb, ), model in zip(hmeta, hresp):
+    for (groups, pol, col, inside, head, tb, nested), model in zip(hmeta, hresp):
         impl = impl_ungroup(groups, pol)
         case = {"groups": groups, "policy": pol}
+        if nested is not None:
+            # direct: every item lying inside the outer hold on its column follows the option; the nested hold's tail is still produced
+            res.case(case, nontrivial=True); res.traces += 1
+            split_plain = [n for n in inside if n[1] == col]
+            nested_splits = nested[1][1] == col
+            if (split_plain or nested_splits) and pol == "RAISE_EXCEPTION":
+                ok = impl == {"err": "OrphanedNoteException"}
+            else:
+                keep = [n for n in inside if not (n[1] == col and pol == "DROP_ORPHAN")]
+                nh = nested[1]; ntail = [nested[2], nh[1], "3", 0, None]
+                heads = [] if (nested_splits and pol == "DROP_ORPHAN") else [nh]
+                # a plain note lying inside the NESTED hold on its column is also a splitting note
+                inner = [n for n in keep if n[1] == nh[1] and unfrac(nh[0]) < unfrac(n[0]) < unfrac(nested[2])]
+                if inner and pol == "RAISE_EXCEPTION":
+                    ok = impl == {"err": "OrphanedNoteException"}
+                else:
+                    if pol == "DROP_ORPHAN": keep = [n for n in keep if n not in inner]
+                    exp = sorted([head[:2] + [head[2], 0, head[4]]] + keep + heads + [ntail, [frac(tb), col, "3", 0, None], [frac(tb + 1), col, "1", 0, None]],
+                                 key=lambda n: (unfrac(n[0]), n[1]))
+                    ok = impl.get("ok") == exp
+            if not ok:
+                res.violation(case, "a joined hold lying inside a joined hold is not handled as the option says", impl=impl)
+            elif impl != model:
+                res.tie_break("group.ungroup(nested hold)", case, impl, model)
+            continue
         splitting = [n for n in inside if n[1] == col]
         res.case(case, nontrivial=bool(splitting)); res.traces += 1
         if splitting and pol == "RAISE_EXCEPTION":
